@@ -93,7 +93,7 @@ class Ctx(object):
             fp = os.path.join(self.work, "tr_%s_%d_%d.ndjson" % (spec.replace(".tla", ""), len(self.tlc_runs), k))
             with open(fp, "w") as f:
                 for t in part:
-                    f.write(_json.dumps(t) + "\n")
+                    f.write(_json.dumps(_tlc_safe(t)) + "\n")
             files.append((fp, part))
 
         def one(arg):
@@ -196,6 +196,23 @@ class Ctx(object):
               % (self.prop, self.tier, self.states, self.transitions, self.traces_validated, self.evaluations,
                  len(self.nontrivial), len(self.known_hit), len(self.violations), wall))
         return 1 if self.violations else 0
+
+
+def _tlc_safe(v):
+    """TLC's JSON reader has no floats / null and mangles ints >= 2^31: such values travel as strings"""
+    if isinstance(v, bool):
+        return v
+    if v is None:
+        return "None"
+    if isinstance(v, float):
+        return repr(v)
+    if isinstance(v, int):
+        return v if abs(v) < 2 ** 31 else str(v)
+    if isinstance(v, dict):
+        return {str(k): _tlc_safe(x) for k, x in v.items()}
+    if isinstance(v, (list, tuple)):
+        return [_tlc_safe(x) for x in v]
+    return v
 
 
 def _match(pattern, key):
